@@ -163,4 +163,22 @@ theorem linesH_stable (grow : Nat → Nat → Nat) (o : List Cell → Nat × Boo
           exact ⟨Nat.lt_of_lt_of_le a1 f.1, (read_frame (f.2 _ a1)).trans a2⟩) e
       exact ⟨f.trans (f2.weaken f.1), hl⟩
 
+theorem hardLoopH_frame (grow : Nat → Nat → Nat) (cells : Slice) (n0 : Nat) :
+    ∀ (n i : Nat) (h : Heap) (line : Slice), n0 ≤ h.length → Good n0 h line →
+      Frame n0 h (hardLoopH grow cells i n h line).1 ∧
+      Good n0 (hardLoopH grow cells i n h line).1 (hardLoopH grow cells i n h line).2.line := by
+  intro n
+  induction n with
+  | zero => intro i h line _ g; exact ⟨Frame.refl _ _, g⟩
+  | succ n ih =>
+    intro i h line hn g
+    simp only [hardLoopH]
+    split
+    · split
+      · exact ⟨Frame.refl _ _, g⟩
+      · exact ⟨Frame.refl _ _, g⟩
+    · obtain ⟨f1, g1⟩ := append_frame grow h line [(arrOf h cells.arr).getD (cells.off + i) default] n0 hn g
+      obtain ⟨f2, g2⟩ := ih (i + 1) _ _ (Nat.le_trans hn f1.1) g1
+      exact ⟨f1.trans f2, g2⟩
+
 end VaxisModel.Lemmas.WrapHeap
